@@ -474,14 +474,9 @@ func (b *RefinementBuilder) StringPrefixFull(prefix string) *RefinementBuilder {
 	// If we have a known string value then the given prefix must actually
 	// match it.
 	if b.orig.IsKnown() && !b.orig.IsNull() {
-		have := b.orig.AsString()
-		matchLen := len(have)
-		if l := len(prefix); l < matchLen {
-			matchLen = l
-		}
-		have = have[:matchLen]
-		new := prefix[:matchLen]
-		if have != new {
+		// A known string must itself start with the whole prefix: a prefix
+		// longer than the string can never be a prefix of it.
+		if have := b.orig.AsString(); !strings.HasPrefix(have, prefix) {
 			panic("refined prefix is inconsistent with known value")
 		}
 	}
